@@ -19,8 +19,8 @@ func init() {
 		ID: "C15", Level: "exploration", Primary: "executions", EvalCount: "scenario_executions", RaceIsViolation: true,
 		Rule: "a dedicated race-detector suite (GORACE halt_on_error=0, reports counted in the log files, de-duplicated by stack pair with line numbers stripped, attributed by the innermost non-runtime/non-stdlib frame of either access): " +
 			"S1 pipelined concurrent handlers writing on one connection (plain/TLS/StartTLS, back-pressure); S2 parallel StartTLS upgrades with traffic before and after; S3 Run/Ready/Stop racing connect storms; " +
-			"S4 connection teardown of every kind with handlers in flight; S5 the test directory served by 8 clients doing bind/search/add/modify/delete while the harness calls SetUsers/SetGroups/SetControls/SetTokenGroups/" +
-			"SetAllowAnonymousBind and the getters; S6 the same without Set*; S7 StartTLS upgrades of 2..4 connections with one shared *tls.Config (in every other round one that spells out TLS 1.0/1.1 as its minimum version) followed by Stop with no traffic over the upgraded session; S8 a request pipelined ahead of StartTLS whose slow handler answers after the upgrade; S9 fresh servers whose very first requests are unrouted and arrive concurrently (one segment, several connections); S10 handlers that answer one request from several goroutines through their one ResponseWriter; S11 connections older than the server's write timeout that keep sending requests one by one while every response write fails. Every third repetition of every scenario runs with Debug-level server loggers. Routes are registered before Run. Each scenario is repeated; a self-test race in harness code proves the detector is live. " +
+			"S4 connection teardown of every kind with handlers in flight; S5 the test directory (two of its entries nothing but a DN) served by 8 clients doing bind/search/add (with and without attributes)/modify/delete while the harness calls SetUsers/SetGroups/SetControls/SetTokenGroups/" +
+			"SetAllowAnonymousBind and the getters; S6 the same without Set*; S7 StartTLS upgrades of 2..4 connections with one shared *tls.Config (in every other round one that spells out TLS 1.0/1.1 as its minimum version) followed by Stop with no traffic over the upgraded session; S8 a request pipelined ahead of StartTLS whose slow handler (60..160ms) answers after the upgrade - or, in half of the rounds, says nothing, and one more request follows inside the tunnel once it is done; S9 fresh servers whose very first requests are unrouted and arrive concurrently (one segment, several connections); S10 handlers that answer one request from several goroutines through their one ResponseWriter; S11 connections older than the server's write timeout that keep sending requests one by one while every response write fails. Every third repetition of every scenario runs with Debug-level server loggers. Routes are registered before Run. Each scenario is repeated; a self-test race in harness code proves the detector is live. " +
 			"distinct_nontrivial = distinct (scenario, repetition, GOMAXPROCS) executions that created concurrent gldap goroutines",
 		Assume: []string{"the race detector generalises each observed execution to every execution with the same synchronisation structure, and says nothing about code the workloads did not run",
 			"getter results are only len()-inspected by the harness: deep reads of shared entries after a getter are the caller's business"},
@@ -43,7 +43,7 @@ func init() {
 			}
 			return ps
 		},
-		MinObserved: []string{"scenario_executions", "S5_set_calls", "S5_client_ops", "fan_out_handler_rounds", "rounds_of_requests_after_failed_writes", "fresh_servers_whose_first_requests_were_unrouted", "repetitions_with_debug_level_loggers", "starttls_upgrades_with_a_shared_config_that_sets_an_old_minimum_version", "token_group_searches_in_the_directory_scenarios"},
+		MinObserved: []string{"scenario_executions", "S5_set_calls", "S5_client_ops", "fan_out_handler_rounds", "rounds_of_requests_after_failed_writes", "fresh_servers_whose_first_requests_were_unrouted", "repetitions_with_debug_level_loggers", "starttls_upgrades_with_a_shared_config_that_sets_an_old_minimum_version", "token_group_searches_in_the_directory_scenarios", "requests_served_after_an_upgrade_that_had_a_request_in_flight"},
 	})
 }
 
@@ -345,7 +345,13 @@ func c15InflightAcrossStartTLS(c *Ctx, pki *PKI, round int) {
 	}
 	srv, err := startSrv(cfg, func(m *gldap.Mux) {
 		m.Delete(func(w *gldap.ResponseWriter, r *gldap.Request) {
-			time.Sleep(time.Duration(60+20*round) * time.Millisecond)
+			dm, _ := r.GetDeleteMessage()
+			if dm != nil && dm.DN == "cn=slow" {
+				time.Sleep(time.Duration(60+20*round) * time.Millisecond)
+				if round >= 3 {
+					return // in the later rounds the slow handler says nothing (the tunnel stays usable)
+				}
+			}
 			w.Write(r.NewResponse(gldap.WithApplicationCode(gldap.ApplicationDelResponse), gldap.WithResponseCode(0)))
 		})
 		m.ExtendedOperation(func(w *gldap.ResponseWriter, r *gldap.Request) {
@@ -371,9 +377,22 @@ func c15InflightAcrossStartTLS(c *Ctx, pki *PKI, round int) {
 	}
 	tc := tls.Client(cn, pki.ClientPlain)
 	cn.SetDeadline(time.Now().Add(5 * time.Second))
-	tc.Handshake()
-	// the slow handler answers after the upgrade; the client just waits (its view of the stream is not judged here)
+	if tc.Handshake() != nil {
+		return
+	}
+	// in the first rounds the slow handler answers after the upgrade (through the writer it was given before it: the
+	// client's view of the stream is not judged here) and the client just waits
 	time.Sleep(time.Duration(150+20*round) * time.Millisecond)
+	if round < 3 {
+		return
+	}
+	// in the later rounds it has said nothing, and the session goes on: one more request, the first one the read loop
+	// takes up after the earlier handler is done
+	tcl := wrapClient(tc)
+	tcl.Send(sber.Message(3, sber.DelRequest([]byte("cn=after-the-upgrade")), nil).Encode())
+	if _, err := tcl.ReadMsg(2 * time.Second); err == nil {
+		c.Count("requests_served_after_an_upgrade_that_had_a_request_in_flight", 1)
+	}
 }
 
 func hasPfx(s, p string) bool { return len(s) >= len(p) && s[:len(p)] == p }
@@ -391,6 +410,8 @@ func c15Directory(c *Ctx, r *Rand, withSet bool) {
 		for i := 0; i < 6; i++ {
 			out = append(out, gldap.NewEntry(c20UserDN(i), map[string][]string{"cn": {fmt.Sprint(i)}, "password": {"pw"}, "mail": {fmt.Sprintf("m%d", rr.Intn(100))}}))
 		}
+		// ... and two entries that are nothing but a DN (no attribute list at all)
+		out = append(out, &gldap.Entry{DN: c20UserDN(6)}, &gldap.Entry{DN: c20UserDN(7)})
 		return out
 	}
 	mkGroups := func() []*gldap.Entry {
@@ -430,7 +451,11 @@ func c15Directory(c *Ctx, r *Rand, withSet bool) {
 				case 3:
 					_, _, err = kc.roundTrip(sber.Search{Base: []byte(dn), Scope: 0, Filter: sber.PresentFilter("objectClass"), Attrs: [][]byte{}}.Node(), sber.AppSearchResultDone)
 				case 4:
-					_, _, err = kc.roundTrip(sber.AddRequest([]byte(dn), []sber.Attr{{Type: []byte("mail"), Vals: [][]byte{[]byte("a")}}}), sber.AppAddResponse)
+					attrs := []sber.Attr{{Type: []byte("mail"), Vals: [][]byte{[]byte("a")}}}
+					if rr.Chance(40) {
+						attrs = nil // an entry without attributes
+					}
+					_, _, err = kc.roundTrip(sber.AddRequest([]byte(dn), attrs), sber.AppAddResponse)
 				case 5:
 					_, _, err = kc.roundTrip(sber.ModifyRequest([]byte(dn), []sber.Change{{Op: int64(rr.Intn(3)), Attr: sber.Attr{Type: []byte("mail"), Vals: [][]byte{[]byte("b")}}}}), sber.AppModifyResponse)
 				case 6:
